@@ -60,13 +60,27 @@ func runC03Probe(c *Ctx) {
 			}
 			// reviewed exception: MultiPolygon fast case, valid only under the guard that the
 			// boundaries share no point at all.
-			if strings.HasPrefix(fn, "geom.(MultiPolygon).checkMultiPolygonConstraints") {
-				guarded := false
-				for _, g := range guardsAt(call) {
+			emptyGuard := func(at ssa.Instruction) bool {
+				for _, g := range guardsAt(at) {
 					if gc, ok := g.Cond.(*ssa.Call); ok && g.Truth && calleeName(gc) == "geom.(MultiPoint).IsEmpty" {
-						guarded = true
+						return true
 					}
 				}
+				return false
+			}
+			inMPCheck := strings.HasPrefix(fn, "geom.(MultiPolygon).checkMultiPolygonConstraints")
+			guarded := inMPCheck && emptyGuard(call.(ssa.Instruction))
+			if !inMPCheck && isNewHelper(f) && f.Parent() == nil {
+				// the probe was moved into a helper: the guard is at its call sites
+				sites := c.P.callSitesOf(f)
+				guarded = len(sites) > 0
+				for _, cs := range sites {
+					if !strings.HasPrefix(FuncName(cs.Parent()), "geom.(MultiPolygon).checkMultiPolygonConstraints") || !emptyGuard(cs.(ssa.Instruction)) {
+						guarded = false
+					}
+				}
+			}
+			if inMPCheck || guarded {
 				if guarded {
 					c.Except(call.Pos(), fn, construct, "executed only when the boundary intersection is empty (dominating interMP.IsEmpty() guard, after interMLS was found empty), so the probe vertex cannot lie on the other boundary")
 					return
